@@ -63,6 +63,7 @@ typedef struct vp_iface {
     session_table *table;
     uint64_t last_hello_tx_ms;
     int in_tick;
+    int state_creations;      /* LLTD_VERIF_HOOKS: times the core created a state record for this context */
 
     /* frames transmitted during the current/last input (for DELIVER) */
     uint8_t *cap[VP_MAX_CAPTURE];
@@ -104,6 +105,10 @@ extern int vp_silent;              /* no logging at all (C20 syscall bracket) */
 
 /* when set, transmitted frames go to the hook instead of the log/capture (online oracles) */
 extern void (*vp_send_hook)(vp_iface *ifc, const uint8_t *frame, size_t len);
+
+/* LLTD_VERIF_HOOKS observation point; optional extra callback (e.g. to align two threads) */
+void lltd_verif_hook(const char *point, void *iface_ctx);
+extern void (*vp_verif_cb)(const char *point, vp_iface *ifc);
 
 /* fault injection: countdown to the k-th call; mode 0 once, 1 persistent */
 extern VP_TLS long vp_fault_malloc_k;
